@@ -164,6 +164,27 @@ PROPS = {
                       'cells per axis; each cast checked cell by cell against the segment',
         'level_note': 'finite point lattice; rounding tolerance grows with ray length (for float rays of thousands of cells it approaches the cell size; see metrics_max)',
     },
+    'C10': {
+        'sources': ['src/transform/SmartRotation3D.cpp'],
+        'harness': 'c10_angles.cpp',
+        'flavour': 'asan',
+        'level': 'exploration',
+        'engine': 'lattice',
+        'rule': 'full lattice roll x pitch x yaw (boundary values 0, +-pi/2, +-pi, +-(2pi-1e-9), pitch up to pi/2-1e-3) in '
+                'float and double through angles->R->angles, angles->q->angles (4 quaternion scalings), R->angles->R, '
+                'SmartRotation3D vs eulerAnglesToRotation3D vs the definition; axis-angle matrix lattice; normaliser '
+                'inputs k*pi/2 +- {0,1ulp,...} and a dense lattice in (-4pi,4pi); every init() sequence to depth 4 on '
+                'one SmartRotation3D; polar/spherical lattices. non-trivial = an angle beyond the principal range or '
+                'pitch beyond 1.5 rad (triples), |input|>pi (normalisers), re-initialisation (sequences), all matrix and '
+                'coordinate cases.',
+        'assumptions': ['normaliser intervals read as closed ([0,2pi], [-pi,pi])', 'spherical round trip tolerance 8 eps (1 + 1/max(theta, sqrt(eps))) relative to the norm because the elevation is acos-based'],
+        'tiers': {'quick': {'deadline': 300}, 'thorough': {'deadline': 3000, 'case_timeout': 300}},
+        'technique': 'bounded-exhaustive lattice enumeration on the real code with long-double definitional oracle; exhaustive init() sequences to a depth on one object',
+        'level_text': 'complete enumeration of a boundary-dense angle lattice in float and double through every conversion '
+                      'path the property names, of an axis-angle matrix lattice, of the normaliser inputs around every '
+                      'multiple of pi/2 and of all SmartRotation3D::init sequences to depth 4',
+        'level_note': 'holds for the lattice values; tolerances stated in evidence bounds',
+    },
 }
 
 ENGINES = [
